@@ -43,6 +43,8 @@ def hexbytes(g, nb):
 
 # comment texts that look like OTHER kinds of listing lines (file-format header, section header, elision, label):
 # an instruction line stays an instruction line whatever its comment says
+LONG_TEXT = "std::__detail::_Map_base<" + "std::pair<int const, std::vector<long> >, " * 30 + "true>::operator[](int const&)+0x1f"     # > 1000 characters
+
 LOOKALIKE_COMMENTS = ["4020 <msg>  (elf file format string)", "file format elf64-x86-64", "Disassembly of section .text:", "...",
                       "0000000000401000 <f>:", "see section .data"]
 
@@ -70,6 +72,8 @@ def inst_line(g, addr, mnems=MNEMS):
         line["annot"] = None
     if g.chance(0.15):
         line["comment"] = g.pick(["0x404040 <x>", "comment", "4010 <y+0x8>"] + LOOKALIKE_COMMENTS)
+        if g.chance(0.1):
+            line["comment"] = "401000 <" + LONG_TEXT + ">"          # very long demangled names make very long lines
     if g.chance(0.15):
         # binutils <= 2.38 pads every mnemonic to a fixed column, operands or not: blanks at the end of the line
         line["trail"] = g.int(1, 6)
@@ -126,9 +130,9 @@ def presentation_edit(g, lines):
         if g.chance(0.5):
             l["pad"] = g.int(0, 30)
         if g.chance(0.4) and l["ops"]:
-            l["annot"] = g.pick([None, "sym", "other+0x4", "ns::f(int, char*)+0x8", "t<a>::g()", "h # not a comment"])
+            l["annot"] = g.pick([None, "sym", "other+0x4", "ns::f(int, char*)+0x8", "t<a>::g()", "h # not a comment", LONG_TEXT])
         if g.chance(0.4):
-            l["comment"] = g.pick([None, "a comment", "0x1234 <z>", "401000 <k+0x10>, x", "# nested # hashes"] + LOOKALIKE_COMMENTS)
+            l["comment"] = g.pick([None, "a comment", "0x1234 <z>", "401000 <k+0x10>, x", "# nested # hashes", LONG_TEXT] + LOOKALIKE_COMMENTS)
         if g.chance(0.3):
             l["trail"] = g.int(0, 7)
         if g.chance(0.15):
